@@ -76,11 +76,12 @@ pub enum Class {
 	Short,
 	Wire,
 	UnknownType,
+	Uniform,
 }
-pub const NCLASS: usize = 12;
+pub const NCLASS: usize = 13;
 pub const CLASS_NAMES: [&str; NCLASS] = [
 	"valid", "truncation", "substitution", "extension", "tlv_unknown_odd", "tlv_unknown_even", "nonminimal_bigsize",
-	"tlv_declared_length", "out_of_range", "short_string", "wire_dispatch", "unknown_type",
+	"tlv_declared_length", "out_of_range", "short_string", "wire_dispatch", "unknown_type", "uniform_string",
 ];
 pub const ERR_NAMES: [&str; 8] = [
 	"UnknownVersion", "UnknownRequiredFeature", "InvalidValue", "ShortRead", "BadLengthDescriptor", "Io",
@@ -336,7 +337,7 @@ pub fn examine<M: Msg>(cx: &mut Ctx, class: Class, buf: &[u8], limit: usize, exp
 				},
 				Expect::NotEq(o, m) => {
 					if &x == m {
-						cx.viol(o, &kind, input, format!("input with a changed declared length still decoded to the original {}", dbg_short(m)));
+						cx.viol(o, &kind, input, format!("a changed input still decoded to the original message (the changed bytes / declared length were ignored): {}", dbg_short(m)));
 					}
 				},
 				Expect::Any | Expect::Canon => {},
